@@ -13,9 +13,10 @@ CHARS = ["a", "b", "é", "ü", "€", "\U0001f600", "ñ", "ア", "—", "、", "
 
 
 def generate(rng, tier, shard, nshards):
+    event = aops.variant_event(rng, skip=("tobytes", "gtobytes"))
     for M in aops.tlc_automata(shard, nshards, every=2 if tier == "quick" else 1):     # (C) the TLC-enumerated family
         for rec in ("left", "right"):
-            yield aops.event("tocfg", {"sr": "Sat3", "M": M, "recursion": rec, "sigma": ["a"], "L": 3}, site=f"to_cfg[{rec}]",
+            yield event("tocfg", {"sr": "Sat3", "M": M, "recursion": rec, "sigma": ["a"], "L": 3}, site=f"to_cfg[{rec}]",
                              feat="tlc-family")
     n = 30 if tier == "quick" else 300
     for i in range(n):
@@ -25,27 +26,27 @@ def generate(rng, tier, shard, nshards):
         feat = aops.afeat(M)
         style = rng.choice(aops.STATE_STYLES)
         for rec in ("left", "right"):
-            yield aops.event("tocfg", {"sr": srn, "M": M, "recursion": rec, "sigma": ["a", "b"], "L": 3, "style": style},
+            yield event("tocfg", {"sr": srn, "M": M, "recursion": rec, "sigma": ["a", "b"], "L": 3, "style": style},
                              site=f"to_cfg[{rec}]", feat=feat)
         # automata built by from_string / from_strings: their STATE NAMES are prefixes of the strings, i.e. may
         # coincide with alphabet symbols
         if i % 3 == 0:
             Xs = [[rng.choice(["a", "b"]) for _ in range(rng.randint(1, 3))] for _ in range(rng.randint(1, 3))]
             for rec in ("left", "right"):
-                yield aops.event("tocfg_strings", {"sr": srn, "Xs": Xs, "recursion": rec, "sigma": ["a", "b"], "L": 3,
+                yield event("tocfg_strings", {"sr": srn, "Xs": Xs, "recursion": rec, "sigma": ["a", "b"], "L": 3,
                                                    "as_str": rng.random() < 0.5},
                                  site=f"from_strings.to_cfg[{rec}]", feat="state-names-are-symbols")
         # byte conversion: alphabets mixing 1-4 byte characters and multi-character symbols
         syms = rng.sample(CHARS, rng.choice([2, 3])) + ([rng.choice(["ab", "éa", "aü"])] if i % 4 == 0 else [])
         names = [gops.tname(x) for x in syms]
         Mb = aops.rand_wfsa(rng, srn, nS=rng.choice([2, 3]), narcs=rng.choice([2, 3, 4]), labels=tuple(names) + ("",), **kw)
-        yield aops.event("tobytes", {"sr": srn, "M": Mb, "L": 3 if tier == "quick" else 4, "style": style},
+        yield event("tobytes", {"sr": srn, "M": Mb, "L": 3 if tier == "quick" else 4, "style": style},
                          site="WFSA.to_bytes", feat="multibyte" if any(len(s.encode()) > 1 for s in syms) else "ascii")
         R = gops.SR[srn]
         shape = "acyclic" if srn in ("RatU", "Rat") else "any"
         g = fam.rand_cfg(rng, R, shape=shape, nN=2, nrules=3, V=tuple(syms[:2]), maxbody=2)
         G, _ = cfg_proj(g)
-        yield aops.event("gtobytes", {"sr": srn, "G": G, "L": 3 if tier == "quick" else 4}, site="CFG.to_bytes",
+        yield event("gtobytes", {"sr": srn, "G": G, "L": 3 if tier == "quick" else 4}, site="CFG.to_bytes",
                          feat="multibyte" if any(len(s.encode()) > 1 for s in syms[:2]) else "ascii")
 
 
